@@ -103,6 +103,30 @@ Fixpoint parse_params (l : list json) : res (list (pystr * Z)) :=
   | _ :: _ => Err (Py TypeError)
   end.
 
+Definition parse_auth_sel (v : json) : res (option auth_sel) :=
+  match v with
+  | JObj s =>
+      let* attach := match jget_none s (jstr "authenticatorAttachment") with
+                     | JNull => Ok None
+                     | v => match enum_lookup attachment_enum v with Some a => Ok (Some a) | None => IJS end
+                     end in
+      let* rk := match jget_none s (jstr "residentKey") with
+                 | JNull => Ok None
+                 | v => match enum_lookup resident_key_enum v with Some a => Ok (Some a) | None => IJS end
+                 end in
+      let* rrk := match jget_none s (jstr "requireResidentKey") with
+                  | JNull => Ok false
+                  | JBool b => Ok b
+                  | _ => IJS
+                  end in
+      let* uv := match jget_none s (jstr "userVerification") with
+                 | JNull => Ok (s2l "preferred")
+                 | v => match enum_lookup user_verification_enum v with Some a => Ok a | None => IJS end
+                 end in
+      Ok (Some {| as_attachment := attach; as_resident_key := rk; as_require_rk := Some rrk; as_uv := Some uv |})
+  | _ => Ok None
+  end.
+
 Definition parse_reg_options_json (O : oracles) (inp : pystr + json) : res creation_options :=
   let* m := load_obj O inp in
   let* rp := get_obj m "rp" in
@@ -114,29 +138,7 @@ Definition parse_reg_options_json (O : oracles) (inp : pystr + json) : res creat
   let* udisp := get_str user "displayName" in
   let* att0 := get_str m "attestation" in
   let* att := match enum_lookup attestation_pref_enum (JStr att0) with Some a => Ok a | None => IJS end in
-  let* sel :=
-    match jget_none m (jstr "authenticatorSelection") with
-    | JObj s =>
-        let* attach := match jget_none s (jstr "authenticatorAttachment") with
-                       | JNull => Ok None
-                       | v => match enum_lookup attachment_enum v with Some a => Ok (Some a) | None => IJS end
-                       end in
-        let* rk := match jget_none s (jstr "residentKey") with
-                   | JNull => Ok None
-                   | v => match enum_lookup resident_key_enum v with Some a => Ok (Some a) | None => IJS end
-                   end in
-        let* rrk := match jget_none s (jstr "requireResidentKey") with
-                    | JNull => Ok false
-                    | JBool b => Ok b
-                    | _ => IJS
-                    end in
-        let* uv := match jget_none s (jstr "userVerification") with
-                   | JNull => Ok (s2l "preferred")
-                   | v => match enum_lookup user_verification_enum v with Some a => Ok a | None => IJS end
-                   end in
-        Ok (Some {| as_attachment := attach; as_resident_key := rk; as_require_rk := Some rrk; as_uv := Some uv |})
-    | _ => Ok None
-    end in
+  let* sel := parse_auth_sel (jget_none m (jstr "authenticatorSelection")) in
   let* ch := get_str m "challenge" in
   let* params := match jget_none m (jstr "pubKeyCredParams") with JArr l => parse_params l | _ => IJS end in
   let* excl := parse_cred_list (jget_none m (jstr "excludeCredentials")) in
